@@ -557,9 +557,18 @@ Definition logged (r : repo) (rn : run) : list str :=
 Definition out_of (st : store) (t : target) (o : str) : option node := option_map e_node (s_outs st (out_rel t o)).
 Definition outs_of (st : store) (t : target) : list (str * option node) :=
   map (fun o => (o, out_of st t o)) (outputs t).
-(* all outputs, the discovered ones included: what the metadata names *)
+(* all outputs, the discovered ones included: for a target with output_dirs what its metadata names *)
+Definition full_outs (st : store) (t : target) : list str := if could_modify t then meta_outs st t else outputs t.
 Definition all_outs_of (st : store) (t : target) : list (str * option node) :=
-  map (fun o => (o, out_of st t o)) (meta_outs st t).
+  map (fun o => (o, out_of st t o)) (full_outs st t).
+(* what a build of t from its declared outputs moves to plz-out, as a function of $SRCS: name -> tree *)
+Definition result (t : target) (ins : list (str * node)) : option (list (str * node)) :=
+  if could_modify t then
+    match od_cmd (outputs t) ins with
+    | Some (found, news) => collect (found ++ news) (add_outs (map fst found) (outputs t))
+    | None => None
+    end
+  else act (t_kind t) (outputs t) ins.
 
 (* ------------------------------------------------------------------------------------------ *)
 (* well-formed repositories (hypotheses of the theorems; executable) *)
